@@ -55,7 +55,26 @@ fn is_skipped_macro(m: &Macro) -> bool {
     n == "debug_assert" || n == "debug_assert_eq" || n == "debug_assert_ne" || n == "assert" || n == "assert_eq" || n == "assert_ne"
 }
 
+fn is_panic_macro(m: &Macro) -> bool {
+    let n = m.path.segments.last().map(|s| s.ident.to_string()).unwrap_or_default();
+    n == "panic" || n == "unreachable" || n == "unimplemented" || n == "todo"
+}
+
 impl<'a> Tr<'a> {
+    /// the end of a path that panics: the current state with a default result
+    fn panic_finish<T: syn::spanned::Spanned>(&mut self, at: &T, env: &Env) -> R<String> {
+        if self.gen.is_some() || !self.loops.is_empty() {
+            return Err(unsupported(at, "`panic!` inside a loop or generator"));
+        }
+        let rt = self.ret_ty.clone();
+        if self.fuel {
+            // a fuelled function: no value
+            return Ok("None".to_string());
+        }
+        let d = self.t.default_of(&rt).ok_or_else(|| unsupported(at, &format!("`panic!` in a function returning {} (no default value for the panicking path)", rt.show())))?;
+        self.finish(Val { s: d, ty: rt }, env)
+    }
+
     pub fn expr_k(&mut self, e: &Expr, env: &Env, hint: Option<&Ty>, k: K) -> R<String> {
         match e {
             Expr::Paren(p) => self.expr_k(&p.expr, env, hint, k),
@@ -141,6 +160,37 @@ impl<'a> Tr<'a> {
             Expr::Assign(a) => self.assign_k(&a.left, None, &a.right, env, e, k),
             Expr::Binary(b) if is_compound(&b.op) => self.assign_k(&b.left, Some(&b.op), &b.right, env, e, k),
             Expr::Macro(m) if is_skipped_macro(&m.mac) => k(self, unit()),
+            Expr::Macro(m) if is_panic_macro(&m.mac) => self.panic_finish(e, env),
+            Expr::MethodCall(m) if m.method == "zip" && m.args.len() == 1 => {
+                // `a.zip(b)`: the list of pairs (List.combine); an iterator value with a configured `next` is first driven to
+                // the list it yields (fuel)
+                let arg = m.args[0].clone();
+                self.expr_k(&m.receiver, env, None, &|tr, recv| {
+                    let bv = tr.pure(&arg, env, None)?;
+                    let bt = match &bv.ty {
+                        Ty::Slice(t) | Ty::Iter(t) => (**t).clone(),
+                        t => return Err(unsupported(e, &format!("`zip` with a value of type {} (only a list)", t.show()))),
+                    };
+                    match &recv.ty {
+                        Ty::Slice(at) | Ty::Iter(at) => {
+                            let ty = Ty::Slice(Box::new(Ty::Tuple(vec![(**at).clone(), bt])));
+                            k(tr, Val { s: format!("(List.combine {} {})", recv.s, bv.s), ty })
+                        }
+                        Ty::Adt(_) => {
+                            let (ls, lt) = tr.collect_iter(&recv, e)?;
+                            let at = match &lt {
+                                Ty::Slice(t) => (**t).clone(),
+                                _ => unreachable!(),
+                            };
+                            let l = tr.fresh("items");
+                            let ty = Ty::Slice(Box::new(Ty::Tuple(vec![at, bt])));
+                            let rest = k(tr, Val { s: format!("(List.combine {} {})", l, bv.s), ty })?;
+                            Ok(format!("match {} with\n| Some {} =>\n{}\n| None => None\nend", ls, l, rest))
+                        }
+                        t => Err(unsupported(e, &format!("`zip` on a value of type {}", t.show()))),
+                    }
+                })
+            }
             Expr::MethodCall(m) if m.method == "map" && m.args.len() == 1 && matches!(&m.args[0], Expr::Closure(c) if c.inputs.len() == 1) && matches!(self.pure(&m.receiver, env, None).map(|v| v.ty), Ok(Ty::Slice(_))) => self.list_map_k(m, env, e, k),
             Expr::Call(c) if Self::from_fn_closure(e).is_some() => {
                 let _ = c;
@@ -335,6 +385,11 @@ impl<'a> Tr<'a> {
                 env2.push(&n, var(cq.clone(), vty));
                 let r = self.stmts_k(rest, &env2, hint, k)?;
                 Ok(let_in(&cq, true, &v.s, &r))
+            }
+            Stmt::Macro(m) if is_panic_macro(&m.mac) => {
+                // `panic!(..)`: this path has no value in Rust; the function ends here with the current state and a default
+                // result (the translated definitions describe the non-panicking runs only)
+                self.panic_finish(first, env)
             }
             Stmt::Macro(m) => {
                 if is_skipped_macro(&m.mac) {
@@ -568,7 +623,7 @@ impl<'a> Tr<'a> {
                 Ok(v.s)
             })?;
             let bt = cell.into_inner().ok_or_else(|| unsupported(at, "`map` closure without a value"))?;
-            return k(self, Val { s: format!("(List.map (fun x_ => let '{} := x_ in\n{}) {})", pat, body, lv.s), ty: Ty::Slice(Box::new(bt)) });
+            return k(self, Val { s: format!("(List.map (fun x_ : {} => let '{} := x_ in\n{}) {})", self.t.coq_ty(&elem)?, pat, body, lv.s), ty: Ty::Slice(Box::new(bt)) });
         }
         if !self.loops.is_empty() || self.gen.is_some() {
             return Err(unsupported(at, "a stateful `map` inside a loop or a generator"));
